@@ -590,7 +590,7 @@ class ReadSetReader:
                 pass
             elif op == 3:  # N
                 # Always stop at reference skips
-                return (reference_bases, query_pos)
+                return (ref_pos, query_pos)
             else:
                 assert False, "unknown CIGAR operator"
         assert ref_pos < reference_bases
